@@ -25,44 +25,53 @@ P = {
         "(c19_duration_text_exact), exact truncation of a fraction of 100 ms (c19_duration_text_truncates), the refutation from 3277 days on as texts "
         "(c19_duration_text_ge_3277_days_refuted: P8Y11M20D) and, outside the statement, the wrap-around of texts above 292 years (c19_duration_text_wraps). "
         "Sentence 1 needs a magnitude bound although the statement has none: 2^53 and 2^53+1 are one double (c19_scaled_exact_needs_bound); proved bound 2^50, "
-        "region up to the first colliding pair for d = 1..4 neither proved nor refuted (design/audit-C19.md). "
+        "above it see the least failing decimals below. "
         "Relative end time of a time period: PROVED to the second for all instants and durations, incl. the JSON round trip "
         "(c19_period_le_second, c19_period_at_once, c19_period_json); decoding a period document is a function of the document and the clock only, never of "
         "what the Go value held before (c19_period_decode_history_independent, c19_period_decode_relative - trivial in the model, tied to UnmarshalJSON by "
         "sequences of decodes into ONE value, directly and through a surrounding struct, with a fresh-value reference and an alias check on copies of the earlier value). "
-        "Instants: only the glue is modelled, over facts regenerated from the tree under test on every run in two independent ways: DYNAMIC (the compiled code is "
-        "probed with a fixed universe of text shapes: the shape NewDateTimeTypeFromTime writes is accepted and read as the right instant, it rounds to the second and "
-        "converts to UTC, every getter accepts the plain and the Z form - c19_datetime_written_is_read, c19_datetime_whole_second_utc, c19_plain_and_z_forms) and STATIC "
-        "(the layout strings found in the source by structural search - anchors are the exported names only; guarded cross-checks c19_ast_first_match, "
-        "c19_ast_format_agrees, c19_ast_layouts_accepted, vacuous when a refactoring hides the strings, broken when a layout that is found contradicts the glue); "
-        "calendar arithmetic and time.Format/Parse are assumed (A-time), the round trip itself is monitored on the real code (years 1-9999, zones, fractions)."
+        "Instants, TEXT LEVEL (second wave): byte-level model Spine.TimeText of what the date/time helpers do with package time - lex (time.nextStdChunk, every chunk kind recognised, the ones no layout of the code uses are outside the model), "
+        "format (Time.AppendFormat), parse (time.parse: getnum, four-digit year, range checks, the fraction read although the layout has none, the optional .999 element, numeric zones, extra text, validation of the day), the proleptic Gregorian calendar, "
+        "the loop of GetTime, NewDateTimeTypeFromTime - over the layout strings REGENERATED from the source on every run. PROVED (c19_instant_text_exact, c19_instant_text_whole_second): for every instant whose rounding to the second lies in the years 0000-9999, every fraction, "
+        "every zone, GetTime(NewDateTimeTypeFromTime t) = t.Round(second), UTC; the domain is exact at its upper end (c19_instant_text_year_10000_refuted: five-digit year, unreadable). The proof is generic in the list of layouts "
+        "(written_is_read: any list, in any order, of layouts of the family 2006-01-02T15:04:05 + optional .999 + literal bytes or zone element that contains one accepting Z), rests on civil_spec (calendar round trip for ALL day numbers, omega) and parse_written. "
+        "DateType / TimeType (only read by the stack): PROVED that the plain and the Z form of every date of the years 0000-9999 / every time of day are read as midnight UTC of that date / that time on 1 January of year 0 (c19_date_text_read, c19_time_of_day_text_read); numeric zones and fractions by the differential run and kernel-evaluated witnesses (c19_getters_on_peer_texts). "
+        "The glue theorems over DYNAMIC facts (probing the compiled code: c19_datetime_written_is_read, c19_datetime_whole_second_utc, c19_plain_and_z_forms) and the guarded STATIC cross-checks (c19_ast_*) of the first rounds stay. "
+        "Sentence 1 above 2^50 (second wave): the least decimals that do not survive, per number of fractional digits, kernel-checked and replayed on the real code on every run (c19_scaled_exact_least_failures: 10*2^49+3, 100*2^45+2, 1000*2^42+21, 10^4*2^38+4; "
+        "known finding decimal-from-least-failing-on); that nothing smaller fails is the error analysis 10^d*ulp(v)/2 < 1/4 - its arithmetic heart is a theorem without bound on the numerator (c19_round_recovers_wide), the rest an argument backed by a directed search on the real code every run. "
+        "The expressions decimals / product / GetValue of the model are the ones in the SOURCE: recovered by the generator scaledexpr, proved equal to the model (Props/C19Scaled: c19_src_product, c19_src_number, c19_src_getvalue, c19_src_decimals), evaluated by the harness. "
+        "Assumed: A-time now only for what Spine.TimeText does not model (the zone database, chunk kinds outside the family) and for time.Time.Round; the model of package time is compared with the real package on every run."
     ),
     "level_note": (
         "The probe phase selects the member of the model family (flags truncScaled, inexactPower) that matches the tree under test; the same check "
         "passes on the unchanged tree (as written, 4 known findings) and on the tree with the two planned repairs (2 known findings left). "
-        "Tie: exhaustive grid k*10^-d, 0<=d<=4, |k| <= 2*10^5 (quick) / 2*10^7 (thorough; beyond |k| = 2*10^6 the negative half is compared with the "
-        "model's answers for the positive half through the proved sign symmetry), random decimals up to 2^50, random doubles across magnitudes; "
-        "the intermediate 'decimals' and 'product' are recomputed by the harness with the same Go expressions the code uses (they tie the model's "
-        "decimals count and product to strconv/math, they are not read out of the code). The driver additionally asserts IsRnd on every rounding. "
+        "Tie: exhaustive grid k*10^-d, 0<=d<=4, |k| <= 2*10^5 (quick) / 5*10^6 and one block of 10^4 in seven up to 2*10^7 (thorough; beyond |k| = 10^6 the negative half is compared with the "
+        "model's answers for the positive half through the proved sign symmetry and the model's digest is computed without the run-time IsRnd assertion), random decimals up to 2^50, a directed search from 2^50 to the least failing decimals "
+        "(more than one period at the start of every segment between powers of two of k and of k*10^-d, both signs), random doubles across magnitudes; "
+        "the intermediate 'decimals' and 'product' columns are evaluated from the expression trees the generator scaledexpr RECOVERED FROM THE SOURCE of the tree under test (validated by the generator against the compiled code; fallback to the harness's own expressions, "
+        "reported in the evidence, when a refactoring cannot be followed). The driver additionally asserts IsRnd on every rounding of the quick-tier grid and of every single value. "
+        "Instants, text level: texts written compared byte for byte with Spine.TimeText (digest over every second of 16/160 days around 8 anchor dates, the years 0000-9999 strided, fractions and zones), the three getters on 45 000 / 450 000 random well-formed and damaged texts, "
+        "package time itself on 131 layouts; an independent reader (regular expression + time.Date) is the SPEC monitor (keys instant-text-denotes-other, instant-misread). All single-value phases run as op lists on the workers (deterministic per seed). "
         "Durations, text level: the text of every duration of the dense sweep (every multiple of 100 ms to 55 h / 23 days, strided to 400 days, both signs) is "
         "compared BYTE FOR BYTE with Spine.DurText.render (by digest, together with the value read back through Spine.DurText.parse), single values up to 292 years "
         "with an independent ISO 8601 reader as SPEC monitor (key duration-text-denotes-other); period.Parse / GetTimeDuration are compared with Spine.DurText.parse "
         "(error or duration in ns + normalised text) on every written text, on the exhaustive grid of all 127 designator subsets x 6 number patterns x 2 signs and on "
         "30 000 / 300 000 random well-formed (75 %) and damaged texts (floors on accepted / refused). Texts with a digit run above 12 are outside the model (answer "
         "'range', counted). Clause-by-clause audit: design/audit-C19.md. "
-        "Trusted: Lean kernel; hand-written models Spine.Num / Spine.Dur / Spine.DurText / Spine.TP; harness and monitor; A-strconv, A-time (A-period only for %g of float32 inside writeField64, tied by the run). "
+        "Trusted: Lean kernel; hand-written models Spine.Num / Spine.Dur / Spine.DurText / Spine.TimeText / Spine.FExpr / Spine.TP; harness and monitor; A-strconv, A-time (A-period only for %g of float32 inside writeField64, tied by the run). "
         "Values outside the model (subnormals, |v| >= 9.2e14 where value*10^4 overflows int64, NaN/Inf) are monitored only or excluded. "
         "The monitor judges clause (b) on the exact representation number*10^scale; for the double read back it allows the spacing of doubles at v in addition "
         "(above 2^39 that spacing alone exceeds 0.0001). The time-period monitor brackets the code's own clock readings with the harness clock."
     ),
-    "props_modules": ["Spine.Props.C19", "Spine.Props.C19Layouts"],
-    "generated_props": ["Spine.Props.C19Layouts"],
-    "generated": ["timelayouts"],
-    "generated_files": ["TimeLayouts.lean"],
-    "lemma_modules": ["Spine.C19", "Spine.RndSound", "Spine.C19Exec", "Spine.DurText", "Spine.DurTextThm"],
+    "props_modules": ["Spine.Props.C19", "Spine.Props.C19Layouts", "Spine.Props.C19Instants", "Spine.Props.C19Scaled"],
+    "generated_props": ["Spine.Props.C19Layouts", "Spine.Props.C19Instants", "Spine.Props.C19Scaled"],
+    "generated": ["timelayouts", "scaledexpr"],
+    "generated_files": ["TimeLayouts.lean", "ScaledExpr.lean"],
+    "lemma_modules": ["Spine.C19", "Spine.C19Wide", "Spine.RndSound", "Spine.C19Exec", "Spine.DurText", "Spine.DurTextThm", "Spine.TimeText", "Spine.TimeTextThm", "Spine.FExpr"],
     "drivers": ["drv_num"],
     "tests": [{"name": "TestNumeric"}],
     "trusted_base": [
+        "model Spine.TimeText (time.nextStdChunk / AppendFormat / parse of the Go runtime at the level of bytes, proleptic Gregorian calendar; written by hand from src/time/format.go of Go 1.23, compared with the package on every run); Spine.FExpr (evaluator of the expression trees recovered from the source); the generators timelayouts and scaledexpr (go/ast; scaledexpr validates what it recovers against the compiled code)",
         "models Spine.Num (binary64 as integers), Spine.Rnd.IsRnd (IEEE-754 round-to-nearest-even as a relation, normal range, exponent unbounded), Spine.Dur (period.NewOf / DurationApprox of rickb777/date v1.21.1), Spine.DurText (period64.String / period.Parse / normalise64 / toPeriod / DurationApprox of the same library at the level of bytes), Spine.TP (time.Time.Round / Duration.Round to the second) written by hand from model/commondatatypes_additions.go and the library source",
         "A-strconv: strconv.FormatFloat(v,'f',-1,64) yields the least number of decimals that round-trips (checked against the model's count on every generated value); A-period (now a theorem over Spine.DurText for every period NewOf builds, c19_duration_text_refines_fields; what remains assumed is that fmt's %g of float32(field)/10 prints the decimal i.f, compared on every run); A-time: time.Format/Parse/Round and calendar arithmetic as documented",
         "decide +kernel for 53-bit witnesses (kernel GMP arithmetic incl. Nat.log2, no extra axiom); Mathlib tactic modules (Linarith, Positivity, NormNum, Ring, Zify) in the lemma files Spine/FloatL.lean, Spine/C19.lean, Spine/RndSound.lean, Spine/C19Exec.lean only - never in a model or driver",
